@@ -41,6 +41,19 @@ def holds (h : List Obs) (files : List (List Char × List UInt8)) : Bool :=
     | some l => !l.ok || decide (lookup files o.path = some l.data)
     | none => true
 
+/-- C02.2: "the private-key file is the key whose public half is in that order's CSR".  Both public
+keys as DER SubjectPublicKeyInfo extracted independently (from the key file that is on disk, from the
+CSR the CA received); `none` = the file is absent / not a key, or the CSR did not parse. -/
+def keyIsCsrKey (keyFilePub csrPub : Option (List UInt8)) : Bool :=
+  match keyFilePub, csrPub with
+  | some a, some b => decide (a = b)
+  | _, _ => false
+
+/-- … and the key file holds nothing but that key: exactly one PEM block, labelled PRIVATE KEY, no
+residue (the counts come from the strict reader `Pem.pemSplit` of Model/Pem). -/
+def keyFileExact (blocks : Nat) (firstLabel : String) (residue : Bool) : Bool :=
+  blocks == 1 && firstLabel == "PRIVATE KEY" && !residue
+
 def isHook : Event → Bool
   | .hook _ => true
   | _ => false
